@@ -104,10 +104,12 @@ def make_model(sources, shape, wcshelper, mask=False, frac=None, sigma=4):
         phi = np.radians(theta)
 
         # skip sources that have a center that is outside of the image
-        if not 0 < xo < shape[0]:
+        # xo/yo are 1-based (FITS) pixel coordinates: pixel i (0-based) spans
+        # [i+0.5, i+1.5), so the image spans [0.5, shape+0.5)
+        if not 0.5 <= xo < shape[0] + 0.5:
             logging.debug("source {0} is not within image".format(src.island))
             continue
-        if not 0 < yo < shape[1]:
+        if not 0.5 <= yo < shape[1] + 0.5:
             logging.debug("source {0} is not within image".format(src.island))
             continue
 
